@@ -51,9 +51,8 @@ def PseudoKnown (isReq : Bool) (fs : List Field) : Prop := ∀ f ∈ fs, isPseud
 def PseudoFirst (fs : List Field) : Prop := fs.Pairwise (fun a b => isPseudoName b.1 = true → isPseudoName a.1 = true)
 def PseudoUnique (fs : List Field) : Prop := ((fs.filter (fun f => isPseudoName f.1)).map Prod.fst).Nodup
 def ClSingle (fs : List Field) : Prop := ∀ f ∈ fs, ∀ g ∈ fs, f.1 = nContentLength → g.1 = nContentLength → f.2 = g.2
-/-- `allowEmpty = false` is the statement; `true` is the weakening the unchanged code satisfies -/
-def ClNumeric (allowEmpty : Bool) (fs : List Field) : Prop :=
-  ∀ f ∈ fs, f.1 = nContentLength → (f.2 ≠ [] ∨ allowEmpty = true) ∧ ∀ b ∈ f.2, isDigitByte b = true
+def ClNumeric (fs : List Field) : Prop :=
+  ∀ f ∈ fs, f.1 = nContentLength → f.2 ≠ [] ∧ ∀ b ∈ f.2, isDigitByte b = true
 def SizeOk (limit : Int) (fs : List Field) : Prop := sectionSize fs ≤ limit
 
 instance (fs) : Decidable (NameTokens fs) := by unfold NameTokens; infer_instance
@@ -64,11 +63,11 @@ instance (r fs) : Decidable (PseudoKnown r fs) := by unfold PseudoKnown; infer_i
 instance (fs) : Decidable (PseudoFirst fs) := by unfold PseudoFirst; infer_instance
 instance (fs) : Decidable (PseudoUnique fs) := by unfold PseudoUnique; infer_instance
 instance (fs) : Decidable (ClSingle fs) := by unfold ClSingle; infer_instance
-instance (a fs) : Decidable (ClNumeric a fs) := by unfold ClNumeric; infer_instance
+instance (fs) : Decidable (ClNumeric fs) := by unfold ClNumeric; infer_instance
 instance (l fs) : Decidable (SizeOk l fs) := by unfold SizeOk; infer_instance
 
 /-- A header section that is safe to hand to net/http (the property's first sentence). -/
-structure WellFormedG (allowEmptyCL : Bool) (isReq : Bool) (limit : Int) (fs : List Field) : Prop where
+structure WellFormed (isReq : Bool) (limit : Int) (fs : List Field) : Prop where
   name_tokens : NameTokens fs
   value_bytes : ValueBytes fs
   no_connection_specific : NoConnectionSpecific fs
@@ -77,10 +76,8 @@ structure WellFormedG (allowEmptyCL : Bool) (isReq : Bool) (limit : Int) (fs : L
   pseudo_first : PseudoFirst fs
   pseudo_unique : PseudoUnique fs
   cl_single : ClSingle fs
-  cl_numeric : ClNumeric allowEmptyCL fs
+  cl_numeric : ClNumeric fs
   size_ok : SizeOk limit fs
-
-abbrev WellFormed := WellFormedG false
 
 /-- names of the clauses that fail (what the oracle's monitor reports) -/
 def failingClauses (isReq : Bool) (limit : Int) (fs : List Field) : List String :=
@@ -92,7 +89,7 @@ def failingClauses (isReq : Bool) (limit : Int) (fs : List Field) : List String 
   (if decide (PseudoFirst fs) then [] else ["pseudo_first"]) ++
   (if decide (PseudoUnique fs) then [] else ["pseudo_unique"]) ++
   (if decide (ClSingle fs) then [] else ["cl_single"]) ++
-  (if decide (ClNumeric false fs) then [] else ["cl_numeric"]) ++
+  (if decide (ClNumeric fs) then [] else ["cl_numeric"]) ++
   (if decide (SizeOk limit fs) then [] else ["size"])
 
 /-- A trailer section (RFC 9114 §4.1: no pseudo-header fields; RFC 9110 §6.5.1 forbids fields needed
